@@ -720,10 +720,10 @@ end roots
 theorem frames_ok :
     SV.Gen.Point.multiplicative_bias_ratio_frame =
       ["fcst = apply_weights(fcst, weights=weights)", "obs = apply_weights(obs, weights=weights)",
-       "fcst, obs = broadcast_and_match_nan(fcst, obs)"]
+       "fcst, obs = _match_nan_per_variable(fcst, obs)"]
     ∧ SV.Gen.Point.pbias_ratio_frame =
       ["fcst = apply_weights(fcst, weights=weights)", "obs = apply_weights(obs, weights=weights)",
-       "fcst, obs = broadcast_and_match_nan(fcst, obs)"]
+       "fcst, obs = _match_nan_per_variable(fcst, obs)"]
     ∧ SV.Gen.Point.qis_components =
       ["interval_width_penalty", "overprediction_penalty", "underprediction_penalty", "total"]
     ∧ SV.Gen.Point.qis_frame = ["result = xr.Dataset(components)", "result"]
@@ -731,5 +731,17 @@ theorem frames_ok :
     ∧ SV.Gen.Point.quantile_score_guard_exc = ["ValueError"]
     ∧ SV.Gen.Point.qis_guard_exc = ["ValueError", "ValueError"] :=
   ⟨rfl, rfl, rfl, rfl, rfl, rfl, rfl⟩
+
+/-- the joint NaN matching of the ratio scores (`_match_nan_per_variable`, regenerated): element by element — hence, for
+    Datasets, variable by variable — both operands are kept exactly where both are valid and are NaN everywhere else;
+    a missing value can only remove its own case (of its own variable) -/
+theorem match_nan_spec (f o : Fl) :
+    SV.Gen.Point.match_nan_fcst f o = (if f.isNan || o.isNan then Fl.nan else f)
+    ∧ SV.Gen.Point.match_nan_obs f o = (if f.isNan || o.isNan then Fl.nan else o) := by
+  cases f <;> cases o <;> simp [SV.Gen.Point.match_nan_fcst, SV.Gen.Point.match_nan_obs, Fl.notNan, Fl.isNan, Fl.whereB]
+
+theorem match_nan_same_mask (f o : Fl) :
+    (SV.Gen.Point.match_nan_fcst f o).isNan = (SV.Gen.Point.match_nan_obs f o).isNan := by
+  cases f <;> cases o <;> simp [SV.Gen.Point.match_nan_fcst, SV.Gen.Point.match_nan_obs, Fl.notNan, Fl.isNan, Fl.whereB]
 
 end SV.Props.C05
